@@ -317,8 +317,14 @@ def check(run: Run) -> None:
             (MAP, "reconcile_compatible_key_source", None, "children kept / dropped / created against the new key source's current keys"),
         ])
 
+    with run.obligation("C10.o", "K6", "the evaluation candidates of map_ (and of mesh_, which shares the bitmap) are turned back into slot ids with the bitmap's own word width: "
+                        "slot = word_index * SlotBitmap::bits_per_word + bit"):
+        R.bitmap_positions(run, "C10.o", MAP)
+        R.bitmap_positions(run, "C10.o", "src/hgraph/runtime/mesh_node.cpp")
+
 
 VARIANTS = [
+    {"id": "o-seed-C10-7-word-index-times-sizeof", "expect": "C10.o", "edits": [{"file": MAP, "find": "                        word_index * SlotBitmap::bits_per_word + bit);", "replace": "                        word_index * sizeof(std::uint64_t) + bit);"}]},
     {"id": "n-seed-C10-5-build-scan-occupied", "expect": "C10.n", "edits": [{"file": MAP, "find": "                if (keys_set.slot_live(slot))\n                {\n                    create_entry_at_slot(view, context, storage, output_mutation, keys_set, slot, evaluation_time);", "replace": "                if (keys_set.slot_occupied(slot))\n                {\n                    create_entry_at_slot(view, context, storage, output_mutation, keys_set, slot, evaluation_time);"}]},
     {"id": "k-compatible-ignores-key-identity", "expect": "C10.k", "edits": [{"file": MAP, "find": "                if (slot >= keys_set.slot_capacity() || !keys_set.slot_occupied(slot) ||\n                    !entry->key.equals(keys_set.at_slot(slot)))", "replace": "                if (slot >= keys_set.slot_capacity() || !keys_set.slot_occupied(slot))"}]},
     {"id": "h-marker-reset-before-test", "expect": "C10.h", "edits": [{"file": MAP, "find": "                if (schedule.pulled)\n                {\n                    if (entry->schedule_context.pulled_when != schedule.when)\n                    {\n                        continue;\n                    }\n                    entry->schedule_context.pulled_when = MAX_DT;\n                }", "replace": "                if (schedule.pulled)\n                {\n                    entry->schedule_context.pulled_when = MAX_DT;\n                    if (entry->schedule_context.pulled_when != schedule.when)\n                    {\n                        continue;\n                    }\n                }"}]},
